@@ -174,6 +174,10 @@ def run_verus(unit, expanded, must_fail=False, sub="common"):
             call = (t0.get("text") or "")[max(0, t0.get("highlight_start", 1) - 1):max(0, t0.get("highlight_end", 1) - 1)]
             if re.match(r"\s*(lemma_\w+|ax_\w+|\w+\s*::\s*ax_\w+)", call):
                 cls = "hint"     # owned by every property that owns the item, whatever the class
+        ptxt = (prim[0].get("text") or [{}])[0].get("text", "")
+        if cls != "hint" and ("vticks" in ptxt or "decreases" in msg.lower() or "termination" in msg.lower()):
+            # the ghost iteration counter of C17 (R14): bound assertions, counter invariants, termination measures
+            cls = "ticks"
         if "rlimit" in msg.lower() or "resource limit" in msg.lower():
             cls = "rlimit"
         failures.append({"unit": unit, "item": item, "class": cls, "message": msg,
